@@ -58,15 +58,17 @@ def parseQ (s : String) : Option Query :=
 
 def parseKind (s : String) : Option DKind :=
   if s == "S" then some .rrsig else if s == "N" then some .nsec
-  else if s == "3" then some .nsec3 else if s == "A" then some .other else none
+  else if s == "3" then some .nsec3 else if s == "A" then some .other
+  else if s == "C" then some .cname else none
 
 /-- a record token; `O` becomes the OPT given as `optRR`. -/
 def parseRR (optRR : Option RR) (s : String) : Option (List RR) :=
   if s == "O" then some (match optRR with | some r => [r] | none => [])
   else match s.splitOn "." with
-    | [k, id, _p, _o, cl, ul] => do
+    | [k, id, pp, _o, cl, ul] => do
       let k ← parseKind k
-      let id ← id.toNat?
+      -- an alias is identified by the query name it points to (its `p` field)
+      let id ← (if k == .cname then pp.toNat? else id.toNat?)
       let cl ← cl.toNat?
       let ul ← ul.toNat?
       some [.data k id cl ul]
@@ -148,6 +150,7 @@ def showRR : RR → String
   | .data .nsec id _ _ => s!"N{id}"
   | .data .nsec3 id _ _ => s!"3{id}"
   | .data .other id _ _ => s!"A{id}"
+  | .data .cname id _ _ => s!"C{id}"
   | .opt _ _ => "O"
 
 def showRRs (l : List RR) : String := if l.isEmpty then "-" else ",".intercalate (l.map showRR)
@@ -285,6 +288,36 @@ def step (st : State) (w : List String) : State × String :=
          | none => (st, "miss")
          | some r => (st, showReplyWith true q (some r)))
     | _, _, _, _ => (st, "bad-op")
+  | ["edns", "failover", path, proto, q, r, f1, f2] =>
+    match parseProto proto, parseQ q, parseR r, parseR f1, parseR f2 with
+    | some p, some q, some u, some u1, some u2 =>
+      let wire := path == "w" && wireEligible q
+      let wb := wire && (q.opt.isNone || (q.opt.map (·.version)) == some 0)
+      let next := fun (q' : Query) =>
+        match upstream u (!wire) q' with
+        | none => Outcome.done none
+        | some m =>
+          -- the query failover sends: the reply's question, RD, EDNS 1232 with DO, the reply's CD
+          let fq : Query := { id := 0, opcode := 0, rd := true, ad := false, cd := m.fl.cd, question := q'.question,
+                              opt := some { udp := consts.defSize, doBit := true } }
+          Outcome.done (some (failover m [upstream u1 false fq, upstream u2 false fq]))
+      (st, showReply q (serveGuarded (msgLen true) (msgLen false) consts st.cfg p q wb next))
+    | _, _, _, _, _ => (st, "bad-op")
+  | ["edns", "hitchase", path, proto, q, ra, tq, rt] =>
+    match parseProto proto, parseQ q, parseR ra, parseQ tq, parseR rt with
+    | some p, some q, some ua, some tq, some ut =>
+      (match upstream ua false q, upstream ut false tq with
+       | some am, some tm =>
+         let s0 := setEdns0 consts st.cfg.ecs q.opt
+         let wire := path == "w" && wireEligible q
+         let w := if wire then writerWire consts p q else writerDecoded consts p q s0
+         -- the byte-route chase exists for wire-born requests only; a decoded one chases through the queryer
+         if !wire then (st, "declined") else
+         (match chaseHit st.cfg st.secretLen w (p == .udp || p == .tcp) am tm (normalised q s0) with
+          | none => (st, "declined")
+          | some r => (st, showReplyWith true q (some r)))
+       | _, _ => (st, "bad-op"))
+    | _, _, _, _, _ => (st, "bad-op")
   | "edns" :: "tomsg" :: q :: r :: rest =>
     match parseQ q, parseR r with
     | some q, some u =>
